@@ -180,13 +180,31 @@ impl<'a, R: CharRead> Lexer<'a, R> {
         }
     }
 
+    // the next character of a comment. Bytes that are not UTF-8 are part of
+    // the comment like any other text: the first such error is kept in
+    // `pending` and reported once the whole comment has been skipped, so
+    // that reading resumes behind the comment and not inside it.
+    fn comment_char(&mut self, pending: &mut Option<ParserError>) -> Result<char, ParserError> {
+        loop {
+            match self.lookahead_char() {
+                Ok(c) => return Ok(c),
+                Err(e) if e.is_unexpected_eof() => return Err(e),
+                Err(e) => {
+                    pending.get_or_insert(e);
+                }
+            }
+        }
+    }
+
     fn single_line_comment(&mut self) -> Result<(), ParserError> {
+        let mut pending = None;
+
         loop {
             if self.reader.peek_char().is_none() {
                 break;
             }
 
-            let c = self.lookahead_char()?;
+            let c = self.comment_char(&mut pending)?;
             self.skip_char(c);
 
             if new_line_char!(c) {
@@ -194,7 +212,10 @@ impl<'a, R: CharRead> Lexer<'a, R> {
             }
         }
 
-        Ok(())
+        match pending {
+            Some(e) => Err(e),
+            None => Ok(()),
+        }
     }
 
     fn bracketed_comment(&mut self) -> Result<bool, ParserError> {
@@ -221,17 +242,18 @@ impl<'a, R: CharRead> Lexer<'a, R> {
             // "extended characters", without having to explicitly add
             // them to a character class.
 
-            let mut c = self.lookahead_char()?;
+            let mut pending = None;
+            let mut c = self.comment_char(&mut pending)?;
 
             let mut comment_loop = || -> Result<(), ParserError> {
                 loop {
                     while !comment_2_char!(c) {
                         self.skip_char(c);
-                        c = self.lookahead_char()?;
+                        c = self.comment_char(&mut pending)?;
                     }
 
                     self.skip_char(c);
-                    c = self.lookahead_char()?;
+                    c = self.comment_char(&mut pending)?;
 
                     if comment_1_char!(c) {
                         break;
@@ -253,7 +275,11 @@ impl<'a, R: CharRead> Lexer<'a, R> {
 
             if prolog_char!(c) {
                 self.skip_char(c);
-                Ok(true)
+
+                match pending {
+                    Some(e) => Err(e),
+                    None => Ok(true),
+                }
             } else {
                 Err(self.located_error(ParserErrorKind::NonPrologChar))
             }
